@@ -111,7 +111,7 @@ def _frame_worker(arg):
     return out
 
 
-def frame_job(arg):
+def frame_job(arg, prop="C04"):
     """Kept functions that return tables (default / selected / named index, spreadsheet-style column names): the second
     keep, dds.load here and in another process, and the parquet file under the data directory all give the kept table."""
     import os
@@ -120,7 +120,7 @@ def frame_job(arg):
     from vp import storemodel as SM
 
     store, tags = arg
-    rep = core.Report("C04")
+    rep = core.Report(prop)
     rep.evaluations = len(tags)
     case = {"frames": True, "store": store, "tags": tags}
     with core.Scratch("vp_c04f_") as td:
